@@ -19,7 +19,8 @@ fn build(text: &str) -> Command {
                 .help("plain")
                 .value_parser(PossibleValuesParser::new([PossibleValue::new("zfast").help(wrap("QZPA", "QZPB")), PossibleValue::new("zslow").help("plain")])),
         )
-        .subcommand(Command::new("zsub").about(wrap("QZSA", "QZSB")))
+        .subcommand(Command::new("zsub").visible_alias("zsubalias").about(wrap("QZSA", "QZSB")))
+        .arg(Arg::new("zopt").short('o').visible_short_alias('O').long("zopt").visible_alias("zoptalias").action(ArgAction::Set).help(wrap("QZHA", "QZHB")))
 }
 fn script(shell: &str, text: &str) -> Result<Vec<u8>, String> {
     let (shell, text) = (shell.to_string(), text.to_string());
